@@ -331,12 +331,64 @@ func (c *Ctx) assignedFromCall(fd *ast.FuncDecl, obj types.Object, call *ast.Cal
 	return n == 1 && ok
 }
 
+// signFoldRule (part of TAB-UNARY): a Nud that folds a unary minus into the operand by
+// prefixing the literal's *text* may do so only for a spelling the literal decoders read
+// back correctly — a plain unsigned decimal.  "-" + "0x10", "-" + "017" and "-" + "-5" are
+// not such spellings (base prefixes are recognised at the start of the text only).
+func signFoldRule(c *Ctx, r *R, rows map[string]*symRow) {
+	n := 0
+	seen := map[*ast.FuncDecl]bool{}
+	for _, row := range rows {
+		fn, _ := row.Nud.(*types.Func)
+		if fn == nil {
+			continue
+		}
+		fd := c.DeclOf(fn)
+		if fd == nil || fd.Body == nil || seen[fd] {
+			continue
+		}
+		seen[fd] = true
+		ast.Inspect(fd.Body, func(nd ast.Node) bool {
+			as, ok := nd.(*ast.AssignStmt)
+			if !ok || len(as.Lhs) != 1 || len(as.Rhs) != 1 {
+				return true
+			}
+			sel, ok := unparen(as.Lhs[0]).(*ast.SelectorExpr)
+			if !ok || sel.Sel.Name != "Text" {
+				return true
+			}
+			be, ok := unparen(as.Rhs[0]).(*ast.BinaryExpr)
+			if !ok || be.Op != token.ADD {
+				return true
+			}
+			if v, ok := c.ConstString(be.X); !ok || v != "-" {
+				return true
+			}
+			n++
+			// an enclosing condition that looks at the spelling being prefixed
+			target := nosp(c.Src(sel))
+			guarded := false
+			for p := c.Parent(as); p != nil && p != ast.Node(fd); p = c.Parent(p) {
+				if ifs, ok := p.(*ast.IfStmt); ok && strings.Contains(nosp(c.Src(ifs.Cond)), target) {
+					guarded = true
+				}
+			}
+			r.check(guarded, "sign fold "+fd.Name.Name, c.Pos(as), "the sign is folded into the text only after looking at the spelling", fd.Name.Name+" prefixes \"-\" to the literal's text whatever its spelling: `-0x10` and `- -5` become the unparsable \"-0x10\" / \"--5\" (valid programs are rejected) and `-017` is read as decimal -17 (Go: -15)")
+			return true
+		})
+	}
+	if n == 0 {
+		r.ok("sign fold", "no Nud folds a sign into literal text")
+	}
+}
+
 func ruleTabUnary(c *Ctx, r *R) {
 	rows, err := c.symbolTable()
 	if err != nil {
 		r.undecided("symbols", "-", err.Error())
 		return
 	}
+	signFoldRule(c, r, rows)
 	ops, err := c.binaryOps()
 	if err != nil {
 		r.undecided("infixMap", "-", err.Error())
